@@ -1,6 +1,8 @@
 #!/bin/sh
-# Offline build of the verification harness against /repo's current working tree (hooks on).
+# Offline build of the verification harness against /repo's current working tree (hooks on):
+# the checked build (debug assertions, overflow checks) and the optimised build without them.
 set -e
 cd "$(dirname "$0")/harness"
 CARGO_NET_OFFLINE=true cargo build --release --offline --bin worker
-echo "setup ok: $(pwd)/target/release/worker"
+CARGO_NET_OFFLINE=true cargo build --profile fast --offline --bin worker --target-dir target-fast
+echo "setup ok: $(pwd)/target/release/worker $(pwd)/target-fast/fast/worker"
